@@ -44,8 +44,4 @@ P_q_basic == [main |-> <<O("new", 2, 0), O("fq", 1, 0), O("sched", 2, 0), O("del
 P_q_c08 == [main |-> <<O("new", 2, 0), O("rbulk", 1, 2), O("resize", 1, 0), O("quiet", 0, 0), O("del", 0, 0)>>]
 P_q_c03 == [main |-> <<O("new", 2, 0), O("up", 0, 0), O("rbulk", 1, 2), O("sync", 0, 0), O("del", 0, 0)>>,
             p2 |-> <<O("up", 0, 0), O("resize", 1, 0)>>]
-\* ThreadPool.tla implements the abstraction its clients are specified over (PoolAbs.tla)
-Abs == INSTANCE PoolAbs WITH Tasks <- TaskIds, alive <- S.alive, sub <- G.sub, ran <- G.ran
-Refines == Abs!Spec
-AbsInv == Abs!ExactlyOnceSoFar /\ Abs!NothingPendingWhenGone
-==========================================================================
+====
